@@ -774,7 +774,7 @@ def _solve_portfolio(facts, g, timeout_ms):
             s.add(*facts)
             s.add(z3.Not(g))
             return s, "unsat", tot, "z3-linear-abstraction"
-    s, r, dt = _solve_z3_one(facts, g, max(1000, timeout_ms // 4))
+    s, r, dt = _solve_z3_one(facts, g, max(1000, min(8000, timeout_ms // 4)))
     tot += dt
     if r in ("sat", "unsat"):
         return s, r, tot, "z3"
